@@ -60,7 +60,10 @@ Definition wf_lcs (cs : list lcls) : Prop :=
 
 (* not redundant at this moment *)
 Definition fresh_now (g : igraph) (L : ledger) (c : cls) (l : list iface) : list iface :=
-  filter (fun x => negb (mem_nat x (closure g (impl_lo L c)))) l.
+  keepnew (closure g (impl_lo L c)) l.
+(* for a class-level declaration ``Interface`` itself counts while nothing is declared yet *)
+Definition fresh_cls (g : igraph) (L : ledger) (c : cls) (kept l : list iface) : list iface :=
+  celide (closure g (impl_lo L c)) kept l.
 
 Definition lset_cls (L : ledger) (c : cls) (r : lcls) : ledger := mkL (upd (lcs L) c r) (los L).
 Definition lset_obj (L : ledger) (o : obj) (r : lobj) : ledger := mkL (lcs L) (upd (los L) o r).
@@ -70,7 +73,7 @@ Definition lset_obj (L : ledger) (o : obj) (r : lobj) : ledger := mkL (lcs L) (u
 Definition l_declare (g : igraph) (L : ledger) (c : cls) (lh l : list iface) : ledger :=
   match nth_error (lcs L) c with
   | None => L
-  | Some r => lset_cls L c (mkLC (lc_bases r) (lc_asked r ++ lh) (lc_kept r ++ fresh_now g L c l)
+  | Some r => lset_cls L c (mkLC (lc_bases r) (lc_asked r ++ lh) (lc_kept r ++ fresh_cls g L c (lc_kept r) l)
                                  (lc_inherit r) (lc_oasked r) (lc_okept r) (lc_meta r) (lc_builtin r))
   end.
 
@@ -100,7 +103,7 @@ Definition l_object (g : igraph) (L : ledger) (t : target)
               | Some r => if lc_builtin r then L else
                           lset_cls L c (mkLC (lc_bases r) (lc_asked r) (lc_kept r) (lc_inherit r)
                                              (fa (lc_oasked r))
-                                             (filter (fun x => negb (mem_nat x (closure g (lc_meta r)))) (fk (lc_okept r)))
+                                             (keepnew (closure g (lc_meta r)) (fk (lc_okept r)))
                                              (lc_meta r) (lc_builtin r))
               | None => L
               end
